@@ -9,7 +9,8 @@ lets everything finish.  Streams:
                   <-> Model/CacheThread.v replayed with the same tokens: outputs, which step blocks
                   where (put / join), which task the worker runs, _loaded/_waiting_for_load at the end,
                   liveness of the worker; oracle: key-value store, 5 s deadline, WorkerDied after a failure
-  sched-cache     DictCache-level programs with sub-caches; oracle: dict per cache, 5 s deadline
+  sched-cache     DictCache-level programs with sub-caches <-> Model/Cache.v (its outputs do not depend on
+                  the schedule); oracle: dict per cache, 5 s deadline
 """
 import itertools
 
@@ -89,24 +90,28 @@ def storage_oracle(case, r):
     if not wf and not failing:
         return None
     died = False
+    written = {}
     for t, (op, o) in enumerate(zip(ops, out)):
         k = op[2]
         want = ['val', m[k]] if op[0] == 's_load' and k in m else ['none']
         if op[0] == 's_save':
-            m[k] = op[3]
-        elif op[0] == 's_delete':
-            m.pop(k, None)
+            written.setdefault(k, set()).add(op[3])
         if o[0] == 'exc':
             if not failing:
                 return 'step %d %r raised %s without any failure of the disk' % (t, op, o[1:])
             if o[1] not in c20.DEATH:
                 return 'step %d %r raised %s after a disk failure (expected WorkerDied)' % (t, op, o[1:])
-            died = True
-        elif wf and o != want and not (op[0] == 's_load' and k not in m):
+            died = True         # from here on an operation that raised may or may not have taken effect
+            continue
+        if op[0] == 's_save':
+            m[k] = op[3]
+        elif op[0] == 's_delete':
+            m.pop(k, None)
+        if died:
+            if o[0] == 'val' and o[1] not in written.get(k, set()):
+                return 'step %d %r returned %s, which was never saved under that key' % (t, op, o)
+        elif wf and o != want and not (op[0] == 's_load' and want == ['none']):
             return 'step %d %r returned %s, a key-value store gives %s' % (t, op, o, want)
-    if failing and not r.get('worker_alive_end', True):
-        # the worker is gone: operations started afterwards that need it must have raised
-        pass
     return None
 
 
@@ -147,30 +152,11 @@ def coq_storage_case(case, r):
                 ev = [97]
         events.append(ev)
     ft = case.get('fail_task')
-    return coq_lit((Nat(case['max_queue_size']), opt(None if ft is None else Nat(ft)), ops, toks, events,
-                    r.get('loaded_end', []), r.get('waiting_end', []), bool(r.get('worker_alive_end'))))
+    return coq_lit((Nat(case['max_queue_size']), CoqRaw('(@None nat)') if ft is None else opt(Nat(ft)), ops, toks, events,
+                    c20.zlist(r.get('loaded_end', [])), c20.zlist(r.get('waiting_end', [])), bool(r.get('worker_alive_end'))))
 
 
-def stream_sched(ctx, boost):
-    import time
-    t0 = time.time()
-    rng = ctx.rng
-    # ------------------------------------------------------------------ storage level, with the model
-    cases = []
-    for prog in FIXED_PROGS[:ctx.pick(3, 4)]:
-        L = ctx.pick(7, 9)
-        for q in (1, 2):
-            for toks in itertools.product('CW', repeat=L):
-                if q == 2 and toks[0] == 'W':
-                    continue                    # a leading W is a no-op: seen with q = 1 already
-                cases.append({'storage': 'PickleStorage', 'max_queue_size': q, 'schedule': list(toks), 'ops': prog})
-    for i in range(ctx.pick(500, 6000) * boost):
-        n = rng.randint(2, ctx.pick(8, 16))
-        prog = gen_storage_prog(rng, n, wellformed=rng.random() < 0.8)
-        c = {'storage': 'PickleStorage', 'max_queue_size': rng.choice([1, 1, 2, 2, 3, 0]), 'schedule': gen_schedule(rng, n), 'ops': prog}
-        if rng.random() < 0.2:
-            c['fail_task'] = rng.randint(0, max(0, n // 2))
-        cases.append(c)
+def check_storage_cases(ctx, cases):
     results = c20.run_cache_cases(ctx, cases, 6, 'sched-storage', deadline=30)
     coq_cases, meta = [], []
     distinct_traces = set()
@@ -186,7 +172,7 @@ def stream_sched(ctx, boost):
                   nontrivial=blocked > 0, sample={'case': case, 'trace': r.get('trace')})
         distinct_traces.add(repr(r.get('trace')))
         if r.get('hang') or not r.get('done'):
-            ctx.fail('oracle', 'sched-storage: deadlock detector: %s' % r.get('hang', 'case did not finish'), replay, match_key='C20:hang')
+            ctx.fail('oracle', 'sched-storage: deadlock detector: %s' % r.get('hang', 'case did not finish'), replay)
             continue
         bad = storage_oracle(case, r)
         if bad:
@@ -202,10 +188,33 @@ def stream_sched(ctx, boost):
         ctx.fail('correspondence', 'Model/CacheThread.v and ThreadedStorage/Worker disagree under an enforced schedule', meta[b])
     ctx.cov['sched_traces_validated_against_model'] = len(coq_cases)
     ctx.cov['sched_distinct_traces'] = len(distinct_traces)
+
+
+def stream_sched(ctx, boost):
+    import time
+    t0 = time.time()
+    rng = ctx.rng
+    # ------------------------------------------------------------------ storage level, with the model
+    cases = []
+    for prog in FIXED_PROGS[:ctx.pick(3, 4)]:
+        L = ctx.pick(7, 9)
+        for q in (1, 2):
+            for toks in itertools.product('CW', repeat=L):
+                if q == 2 and toks[0] == 'W':
+                    continue                    # a leading W is a no-op: seen with q = 1 already
+                cases.append({'storage': 'PickleStorage', 'max_queue_size': q, 'schedule': list(toks), 'ops': prog})
+    for i in range(ctx.pick(500, 4000) * boost):
+        n = rng.randint(2, ctx.pick(8, 16))
+        prog = gen_storage_prog(rng, n, wellformed=rng.random() < 0.8)
+        c = {'storage': 'PickleStorage', 'max_queue_size': rng.choice([1, 1, 2, 2, 3, 0]), 'schedule': gen_schedule(rng, n), 'ops': prog}
+        if rng.random() < 0.2:
+            c['fail_task'] = rng.randint(0, max(0, n // 2))
+        cases.append(c)
+    check_storage_cases(ctx, cases)
     t1 = time.time()
     # ------------------------------------------------------------------ DictCache level, oracle only
     cases = []
-    for i in range(ctx.pick(300, 3000) * boost):
+    for i in range(ctx.pick(300, 2000) * boost):
         n = rng.randint(3, ctx.pick(10, 25))
         ops = c20.gen_cache_ops(rng, n, threaded=True, close=False)
         ops = [o for o in ops if o[0] != 'bool']
@@ -216,5 +225,7 @@ def stream_sched(ctx, boost):
             c['fail'] = True
         cases.append(c)
     results = c20.run_cache_cases(ctx, cases, 6, 'sched-cache', deadline=30)
-    c20.judge_cache_cases(ctx, cases, results, 'sched-cache', [], [])
+    coq_cases, coq_meta = [], []
+    c20.judge_cache_cases(ctx, cases, results, 'sched-cache', coq_cases, coq_meta)
+    c20.model_on_cache_cases(ctx, coq_cases, coq_meta, name='cases_c20_schedcache')   # Model/Cache.v: outputs do not depend on the schedule
     ctx.cov.setdefault('wall_breakdown_s', {}).update({'sched-storage': round(t1 - t0), 'sched-cache': round(time.time() - t1)})
